@@ -248,6 +248,17 @@ pub fn golomb_args(f: &str, w: Option<usize>, _t: usize) -> Vec<String> {
 /// merge-heavy family: 2-3 items, 4-6 periods, many demands (feasible by construction: item of period t due at t or later),
 /// asymmetric changeover 0..7, small stocking costs: at narrow widths many states with different "next item" are merged, and
 /// the relaxation must stay a relaxation whatever their order
+/// psp: the changeover costs of the problem (CSPLib 058) satisfy the triangle inequality, and the example's merge operator
+/// is a relaxation only then (open finding D15, reported by engine `exmodel`).  A drawn matrix that violates it is replaced by
+/// its shortest-path closure (asymmetry kept), except one time in ten, where it is kept and tagged `ood_no_triangle`.
+fn psp_triangle(q: &mut Vec<Vec<i64>>, rng: &mut Rng, tags: &mut Vec<&'static str>) {
+    let n = q.len();
+    let viol = |q: &Vec<Vec<i64>>| (0..n).any(|a| (0..n).any(|b| (0..n).any(|c| a != b && q[a][b] > q[a][c] + q[c][b])));
+    if !viol(q) { return; }
+    if rng.chance(1, 10) { tags.push("ood_no_triangle"); return; }
+    for c in 0..n { for a in 0..n { for b in 0..n { if a != b && q[a][c] + q[c][b] < q[a][b] { q[a][b] = q[a][c] + q[c][b]; } } } }
+    tags.push("triangle_closure");
+}
 fn gen_psp_merge_heavy(rng: &mut Rng) -> ExInst {
     let n = rng.range(2, 3) as usize; let t_hor = rng.range(4, 6) as usize;
     let mut d = vec![vec![0i64; t_hor]; n];
@@ -262,6 +273,8 @@ fn gen_psp_merge_heavy(rng: &mut Rng) -> ExInst {
     let total: i64 = d.iter().flatten().sum();
     let mut q = vec![vec![0i64; n]; n];
     for a in 0..n { for b in 0..n { if a != b { q[a][b] = rng.range(0, 7); } } }
+    let mut tags = vec!["merge_heavy"];
+    psp_triangle(&mut q, rng, &mut tags);
     let h: Vec<i64> = (0..n).map(|_| rng.range(0, 3)).collect();
     let mut file = format!("{}\n{}\n{}\n\n", t_hor, n, total);
     for a in 0..n { file.push_str(&join(&q[a])); file.push('\n'); }
@@ -270,7 +283,6 @@ fn gen_psp_merge_heavy(rng: &mut Rng) -> ExInst {
     for i in 0..n { file.push_str(&join(&d[i])); file.push('\n'); }
     file.push_str("\n0\n");
     let tokens = format!("{} {} {} {} {}", t_hor, n, q.iter().map(|r| join(r)).collect::<Vec<_>>().join(" "), join(&h), d.iter().map(|r| join(r)).collect::<Vec<_>>().join(" "));
-    let mut tags = vec!["merge_heavy"];
     if total == 0 { tags.push("no_demand"); }
     ExInst { file, tokens, tags }
 }
@@ -314,6 +326,7 @@ pub fn gen_psp(rng: &mut Rng) -> ExInst {
     } } }
     push_tag(&mut tags, qmode == 0 && n > 1, "zero_changeover");
     push_tag(&mut tags, qmode == 2 && n > 1, "symmetric_changeover");
+    psp_triangle(&mut q, rng, &mut tags);
     if rng.chance(1, 40) { for a in 0..n { q[a][a] = rng.range(1, 5); } tags.push("ood_nonzero_diagonal"); }
     // stocking costs
     let hmode = rng.below(5);
